@@ -19,6 +19,9 @@ class Blob:
     def __eq__(self, other):
         return isinstance(other, Blob) and other.data == self.data
 
+    def __repr__(self):  # (no memory address: the operation log is part of the run's digest)
+        return f"Blob({len(self.data)}:{self.data[-6:]})"
+
 
 class C31(Check):
     PROPERTY = "C31"
